@@ -155,7 +155,8 @@ def run(chk: Check):
                           "state passed as a dictionary", {"dets": [list(map(list, p)) for p in pick]})
     lap("files_done")
     # ------------------------------------------------------------------ (d) zero variance with TLC's H matrix
-    zspaces = [(3, 2, 1, 2)] + ([(4, 2, 2, 2), (3, 1, 1, 3)] if big else [(4, 2, 1, 2)])
+    zspaces = [(3, 2, 1, 2), (3, 2, 1, 3)] + ([(4, 2, 2, 2), (3, 1, 1, 3)] if big else [(4, 2, 1, 2)])
+    zv_carry = None
     for zi, (norb, nu, nd, nchol) in enumerate(zspaces):
         ham = wf.gen_ham(rng, norb, nchol, False)
         ham["chol"] = ham["chol"] * 1          # integers
@@ -177,7 +178,14 @@ def run(chk: Check):
         hm = hamiltonian.hamiltonian(norb)
         hd = {"h0": ham["h0"], "h1": jnp.array(np.array([ham["h1u"], ham["h1d"]]) * 1.0),
               "chol": jnp.array(ham["chol"].reshape(nchol, -1) * 1.0), "ene0": 0.0}
-        hdm = hm.build_measurement_intermediates(dict(hd), trial, wd)
+        # every other Hamiltonian is prepared in the dictionary that was prepared for the PREVIOUS Hamiltonian (its input
+        # fields overwritten): an exact eigenvector must give the eigenvalue of the Hamiltonian that is in the dictionary now
+        src = dict(hd)
+        if zv_carry is not None and zi % 2 == 1:
+            zv_carry.update(hd)
+            src = zv_carry
+        hdm = hm.build_measurement_intermediates(src, trial, wd)
+        zv_carry = hdm
         nwk = 8
         ups = jnp.array(rng.normal(size=(nwk, norb, nu)) + 1j * rng.normal(size=(nwk, norb, nu)))
         dns = jnp.array(rng.normal(size=(nwk, norb, nd)) + 1j * rng.normal(size=(nwk, norb, nd)))
@@ -195,7 +203,7 @@ def run(chk: Check):
                 break
         # complete driver runs
         P = proxies.prop_proxy(propagation.propagator_unrestricted)
-        for seed in ((5, 6) if big else (5,)):
+        for seed in (() if zi == 1 else (5, 6) if big else (5,)):
             sysd = {"ham": hm, "ham_data": hd, "trial": trial, "wave_data": dict(wd), "prop": P(dt=0.01, n_walkers=4),
                     "norb": norb, "nelec": (nu, nd)}
             opts = runlevel.default_options(seed=seed, n_eql=1, n_ene_blocks_eql=1, n_sr_blocks_eql=1)
